@@ -401,9 +401,22 @@ def _full_launch_def(e, k) -> bool:
   if e.lc is None:
     return False
   own = tuple(T("tid", t) for t in range(e.lc.keval.ntid))
+  cond = []
   for a in e.lc.keval.accesses:
     if a.kind == "w" and effects.array_key(e.lc, a.root) == k and len(a.idx) >= 1 and tuple(a.idx) == own[: len(a.idx)]:
-      if not any(any(s.op in ("ld", "at") for s in subterms(t)) for t, _ in pc_literals(a.pc)):
+      dd = [(t, p) for t, p in pc_literals(a.pc) if any(s.op in ("ld", "at") for s in subterms(t))]
+      if not dd:
+        return True
+      cond.append((a, dd))
+  # if/else pair: two stores at the own index whose data-dependent literals are one literal and its complement
+  from ..terms import lit, lit_parts
+
+  for i, (a, da) in enumerate(cond):
+    if len(da) != 1:
+      continue
+    comp = lit_parts(lit(da[0][0], not da[0][1]))
+    for b, db_ in cond[i + 1 :]:
+      if len(db_) == 1 and (db_[0] == comp or db_[0] == (da[0][0], not da[0][1])):
         return True
   return False
 
